@@ -10,7 +10,8 @@
    fragment: a map entry that is a struct held by value has scalar/string/bytes fields only, no
    []byte and no map held by value as slice element, no []byte as map value. *)
 From Coq Require Import List Bool String Ascii ZArith Arith Floats.SpecFloat.
-From Verif Require Import Util Ints Floats Node GoSrc Value Outcome Nav LCSound SetEmit SetSpec SetSound SetMono SetGet Shapes GenUnits GenC03 GenC03x GenC03b.
+From Verif Require Import Util Ints Floats Node GoSrc Value Outcome Nav LCSound SetEmit SetSpec SetSound SetMono SetGet SetHist SetHistSound Shapes GenUnits GenC03 GenC03x GenC03b.
+From Verif Require Buffer ConvTexts.
 Import ListNotations.
 Local Open Scope string_scope.
 
@@ -63,6 +64,55 @@ Theorem C03_no_panic : forall s buf n v path,
 Proof. exact set_method_no_panic. Qed.
 Print Assumptions C03_no_panic.
 
+(* HISTORIES.  Several Set / SetWithBuffer calls on one object, in any order, on any paths, with any
+   assigned values, buffered or not ([hstep], Model/SetHist.v; [hstep_run] is [set_method]): every
+   call returns, keeps the object well-typed, and meets the demand on the object the calls before
+   it left ([call_ok], Proofs/SetHistSound.v): nothing off ITS path changes - so whatever the
+   earlier calls stored elsewhere is what it was -, the end of its path holds the converted value
+   (set then get), for every call of the history.  [lnok]: no scalar node is named like the bytes
+   leaf (true of every parsed declaration; C03_units_leafnames). *)
+Theorem C03_history : forall steps n v,
+  wfn n = true -> sound_set n = true -> root_ok n = true -> lnok n = true -> wtb n v = true ->
+  hist_ok n v steps.
+Proof. exact hist_sound. Qed.
+Print Assumptions C03_history.
+
+(* The same by position, in the terms the histories of the stream c03 print ([run_hist]: the outcome of every
+   call): the j-th call is made on the object the first j calls left, and its printed outcome is a
+   return that meets the demand there. *)
+Theorem C03_history_every_call : forall steps n v j st,
+  wfn n = true -> sound_set n = true -> root_ok n = true -> lnok n = true -> wtb n v = true ->
+  nth_error steps j = Some st ->
+  exists vb v' e,
+    hist_final n v (firstn j steps) = Some vb /\ wtb n vb = true /\
+    nth_error (run_hist n v steps) j = Some (Ret v' e) /\
+    hstep_run n vb st = Ret v' e /\ call_ok n vb st (Ret v' e).
+Proof. exact hist_every_call. Qed.
+Print Assumptions C03_history_every_call.
+
+(* One call keeps a well-typed object well-typed (what lets the one-call theorems be iterated). *)
+Theorem C03_set_keeps_type : forall s buf n v path v' e,
+  wfn n = true -> lnok n = true -> wtb n v = true ->
+  set_method n v path s buf = Ret v' e -> wtb n v' = true.
+Proof. exact set_method_wt. Qed.
+Print Assumptions C03_set_keeps_type.
+
+(* The buffer's side of a history (why the object's history is the one-call model iterated, and
+   what a shared buffer must never break): whatever happened to the ByteBuffer before ([pre]: any
+   operations of Model/Buffer.v - fresh, presized, used, reset), after any sequence [cs] of buffered
+   conversions (AssignToStr / AssignToBytes: acquire, append the rendered text, release, store a
+   view of the new region) the text handed out by the k-th conversion still reads as it was
+   rendered - for every k, hence after every prefix of the sequence too. *)
+Theorem C03_history_texts_stable : forall cs pre size k isstr d e,
+  nth_error cs k = Some (isstr, d, e) ->
+  exists x,
+    nth_error (Buffer.st_log (Buffer.run true size (pre ++ ConvTexts.conv_ops cs)))
+              (List.length (Buffer.st_log (Buffer.run true size pre)) + k) = Some x /\
+    Buffer.hd_str x = isstr /\ Buffer.hd_live x = true /\
+    Buffer.read (Buffer.st_heap (Buffer.run true size (pre ++ ConvTexts.conv_ops cs))) (Buffer.hd_sl x) = d.
+Proof. exact ConvTexts.conv_texts_stable. Qed.
+Print Assumptions C03_history_texts_stable.
+
 (* Outside the sound fragment the (repaired) emitter still loses updates: below a non-scalar field
    of a struct that is held BY VALUE in a map the assignment goes to a copy of the entry that is
    never stored back.  (Open finding nested_in_map_entry: the stream c03x runs the real generated
@@ -109,3 +159,23 @@ Example C03_demo :
   set_method n v ["A"] (SrcInt KUint8 9) false = Ret v None /\
   set_method n v ["L"; "x"] (SrcInt KInt8 9) false = Ret v (Some EParse).
 Proof. vm_compute. repeat split; reflexivity. Qed.
+
+(* the nodes of every unit the streams run are free of scalar nodes named like the bytes leaf *)
+Example C03_units_leafnames :
+  forallb (fun u => lnok (root_node u)) (supported_units 0 ++ xunits ++ bunits) = true.
+Proof. vm_compute. reflexivity. Qed.
+
+(* a history on a concrete object: two buffered conversions into different text elements and a
+   third one back into the first; each call leaves the text of the other element alone *)
+Example C03_history_demo :
+  let n := root_node ("T", TStruct [("N", Shapes.leaf); ("M", TMap (TScalar SString) (TScalar SString))]) in
+  let v := VStruct [VStruct [VInt 1; VStr "ns"; VBytes false [] 0; VFloat (S754_zero false)]; VMap true []] in
+  let steps := [mk_hstep ["N"; "S"] (SrcInt KInt64 1234567) true; mk_hstep ["M"; "k"] (SrcInt KUint16 65535) true;
+                mk_hstep ["N"; "B"] (SrcInt KInt32 (-42)) false; mk_hstep ["N"; "S"] (SrcBool true) true] in
+  wtb n v = true /\
+  map (fun o => match o with Ret x _ => dump x | _ => "?" end) (run_hist n v steps) =
+  [ dump (VStruct [VStruct [VInt 1; VStr "1234567"; VBytes false [] 0; VFloat (S754_zero false)]; VMap true []]);
+    dump (VStruct [VStruct [VInt 1; VStr "1234567"; VBytes false [] 0; VFloat (S754_zero false)]; VMap false [(VStr "k", VStr "65535")]]);
+    dump (VStruct [VStruct [VInt 1; VStr "1234567"; VBytes false (bytes_of_string "-42") 0; VFloat (S754_zero false)]; VMap false [(VStr "k", VStr "65535")]]);
+    dump (VStruct [VStruct [VInt 1; VStr "true"; VBytes false (bytes_of_string "-42") 0; VFloat (S754_zero false)]; VMap false [(VStr "k", VStr "65535")]]) ].
+Proof. vm_compute. split; reflexivity. Qed.
